@@ -4,7 +4,28 @@ Property theorems only (lemmas live in Klev/Proofs).
 -/
 import Klev.Proofs.IndexSearch
 import Klev.Proofs.SegSearch
+import Klev.Proofs.ConsumeOK
+import Klev.Proofs.ReadInv
 namespace Klev.C03
+
+/-- **Refinement.** On every log state satisfying the invariant `Inv` (multi-segment, holes
+at segment starts / middles / ends, empty head, indexes loaded or not), for every offset
+and every `maxCount ≥ 1`, the mechanism `Log.consume` — segment selection by binary search,
+in-segment lower bound through the index, range read through the record positions,
+hand-off to the next segment after the end of a reader segment, caught-up handling in the
+head — returns a result the L0 relation `ConsumeOK` allows: at most `maxCount` messages
+forming a prefix of the live messages at or after the offset, next = last + 1; when
+nothing is returned the next offset steps over no live message and equals `NextOffset`
+when caught up; progress; `OffsetNewest` returns `(NextOffset, [])`; beyond `NextOffset`
+fails with `ErrInvalidOffset`. -/
+theorem consume_ok (l : Log) (hinv : Inv l) (off : Int) (mc : Nat) (hmc : 1 ≤ mc) :
+    Spec.ConsumeOK (abs l) off mc (l.consume off mc).2 :=
+  Klev.consume_ok l hinv off mc hmc
+
+/-- Consume is a read: it keeps the invariant and the L0 state (it may load indexes). -/
+theorem consume_inv (l : Log) (hinv : Inv l) (off : Int) (mc : Nat) :
+    Inv (l.consume off mc).1 ∧ abs (l.consume off mc).1 = abs l :=
+  Klev.consume_inv l hinv off mc
 
 /-- (i) The in-segment search of `index.Consume`, for every sorted index and every offset:
 the position of the first item whose offset is not below the requested one (and of the
@@ -36,6 +57,8 @@ example : SegSearch.consume [0, 10, 20, 30] 15 = .ok 1 := by decide
 
 end Klev.C03
 
+#print axioms Klev.C03.consume_ok
+#print axioms Klev.C03.consume_inv
 #print axioms Klev.C03.index_consume_spec
 #print axioms Klev.C03.segment_consume_spec
 #print axioms Klev.C03.segment_consume_first
